@@ -303,50 +303,41 @@ func (res *Response) ReadFrom(r io.Reader) (n int64, err error) {
 		return 0, nil
 	}
 
-	res.hasBody = true
-	res.eoncodeHead()
-	_, err = c.Write(*res.buffer)
-	mempool.Free(res.buffer)
-	res.buffer = nil
-	if err != nil {
-		return 0, err
-	}
+	res.WriteHeader(http.StatusOK)
+	res.checkChunked()
 
-	if !res.Parser.Engine.DisableSendfile {
-		lr, ok := r.(*io.LimitedReader)
-		if ok {
-			n, r = lr.N, lr.R
-			if n <= 0 {
-				return 0, nil
-			}
-		}
-
-		f, ok := r.(*os.File)
-		if ok {
-			rc := c
-			if hc, ok := c.(*Conn); ok {
-				rc = hc.Conn
-			}
-			nc, ok := rc.(interface {
-				Sendfile(f *os.File, remain int64) (int64, error)
-			})
-			if !ok {
-				hc, ok2 := c.(*Conn)
-				if ok2 {
-					nc, ok = hc.Conn.(interface {
-						Sendfile(f *os.File, remain int64) (int64, error)
-					})
+	// Sendfile writes the file bytes as they are: only possible when the body
+	// is not chunked and its length has been declared.
+	if !res.Parser.Engine.DisableSendfile && !res.chunked {
+		if cl, _ := res.contentLength(); cl > 0 {
+			src, remain := r, int64(0)
+			if lr, ok := r.(*io.LimitedReader); ok {
+				src, remain = lr.R, lr.N
+				if remain <= 0 {
+					return 0, nil
 				}
-
 			}
-			if ok {
-				ns, err := nc.Sendfile(f, lr.N)
-				return ns, err
+			if f, ok := src.(*os.File); ok {
+				rc := c
+				if hc, ok := c.(*Conn); ok {
+					rc = hc.Conn
+				}
+				if nc, ok := rc.(interface {
+					Sendfile(f *os.File, remain int64) (int64, error)
+				}); ok {
+					res.hasBody = true
+					// the head and the body bytes written so far go first.
+					res.Flush()
+					ns, err := nc.Sendfile(f, remain)
+					res.bodyWritten += int(ns)
+					return ns, err
+				}
 			}
 		}
 	}
 
-	return io.Copy(c, r)
+	// Everything else goes through Write, which frames and buffers the bytes.
+	return io.Copy(struct{ io.Writer }{res}, r)
 }
 
 // Push implements the http.Pusher interface.
